@@ -407,6 +407,22 @@ func runC03(r *simkit.Run, c Cfg) {
 		r.Probe(fmt.Sprintf("address-with-p2p-suffix-%d", suffix))
 		return ai
 	}
+	if c.Case < 0 && tp.Chance(1, 5, "nilAddr") {
+		// a nil element in the address list (the library's cleaning helper
+		// exists for those): the publisher asked for is still the one named
+		inner := withSuffix
+		at := tp.Choose(2, "nilAddr.at")
+		withSuffix = func(ai peer.AddrInfo) peer.AddrInfo {
+			ai = inner(ai)
+			if at == 0 {
+				ai.Addrs = append([]multiaddr.Multiaddr{nil}, ai.Addrs...)
+			} else {
+				ai.Addrs = append(append([]multiaddr.Multiaddr{}, ai.Addrs...), nil)
+			}
+			r.Probe("address-list-with-a-nil-element")
+			return ai
+		}
+	}
 	attack = true
 	req0 := len(w.Net.Requests())
 	var res *result
